@@ -11,7 +11,7 @@
    end-of-stream envelope after messages; trailers-only headers / unary body
    before any), not a sample. *)
 From Coq Require Import List NArith Lia Bool.
-From Coq.Strings Require Import Byte.
+From Coq.Strings Require Import Byte String.
 From Connect Require Import Bytes Generated Codes Header ErrWire.
 Import ListNotations.
 Local Open Scope N_scope.
@@ -38,7 +38,8 @@ Theorem grpc_error_roundtrip : forall (headers trailer : hmap) (e : err D),
       (grpc_error_to_trailer D status_marshal trailer (Some e)) = inl (Some e') /\
     e_code e' = e_code e /\ e_msg e' = e_msg e /\ e_details e' = e_details e /\
     forall k, ~ reserved_grpc k ->
-      values k (e_meta e') = values k headers ++ values k trailer ++ values k (e_meta e).
+      values k (e_meta e') = values k headers ++ values k trailer ++
+                             (if message_header k then [] else values k (e_meta e)).
 Proof. exact (grpc_error_roundtrip_lemma D status_marshal status_unmarshal status_roundtrip). Qed.
 Print Assumptions grpc_error_roundtrip.
 
@@ -51,7 +52,7 @@ Theorem connect_unary_error_roundtrip : forall header trailer (e : err D),
   400 <= status < 600 /\
   exists e', connect_unary_error_decode D wire_unmarshal status hdr body = Some e' /\
     e_code e' = e_code e /\ e_msg e' = e_msg e /\ e_details e' = e_details e /\
-    forall k, values k (e_meta e') = values k header ++ values k (e_meta e) ++ values k trailer.
+    forall k, values k (e_meta e') = values k header ++ (if message_header k then [] else values k (e_meta e)) ++ values k trailer.
 Proof. exact (connect_unary_error_roundtrip_lemma D wire_marshal wire_unmarshal wire_roundtrip). Qed.
 Print Assumptions connect_unary_error_roundtrip.
 
@@ -61,13 +62,53 @@ Theorem connect_stream_error_roundtrip : forall headers trailer (e : err D),
   exists e' md,
     connect_end_decode D end_unmarshal headers (connect_end_stream D end_marshal trailer (Some e)) = Some (Some e', md) /\
     e_code e' = e_code e /\ e_msg e' = e_msg e /\ e_details e' = e_details e /\
-    forall k, values k (e_meta e') = values k headers ++ values k trailer ++ values k (e_meta e).
+    forall k, values k (e_meta e') = values k headers ++ values k trailer ++
+                                     (if message_header k then [] else values k (e_meta e)).
 Proof. exact (connect_stream_error_roundtrip_lemma D end_marshal end_unmarshal end_roundtrip). Qed.
 Print Assumptions connect_stream_error_roundtrip.
 End C02.
 Print Assumptions grpc_error_roundtrip.
 Print Assumptions connect_unary_error_roundtrip.
 Print Assumptions connect_stream_error_roundtrip.
+
+(* which metadata is left out: only names of the HTTP message vocabulary (the list extracted from
+   mergeMetadataHeaders is within the fixed set below) - never a name an application chooses for
+   its own metadata, and none of the protocols' own prefixes *)
+Definition http_message_vocabulary : list bytes :=
+  map list_byte_of_string
+    ["Content-Type"; "Content-Length"; "Content-Encoding"; "Content-Language"; "Content-Location";
+     "Content-Range"; "Host"; "User-Agent"; "Trailer"; "Date"; "Connection"; "Keep-Alive";
+     "Transfer-Encoding"; "Te"; "Upgrade"; "Accept-Encoding"; "Server"; "Via"]%string.
+
+Theorem only_http_message_names_are_left_out : forall k,
+  message_header k = true -> In k http_message_vocabulary.
+Proof.
+  intros k Hk. unfold message_header in Hk. apply existsb_exists in Hk.
+  destruct Hk as (x & Hin & Heq). apply bs_eqb_eq in Heq. subst x.
+  assert (forallb (fun x => existsb (bs_eqb x) http_message_vocabulary) metadata_excluded_headers = true) as Hall
+    by (vm_compute; reflexivity).
+  rewrite forallb_forall in Hall. specialize (Hall k Hin). apply existsb_exists in Hall.
+  destruct Hall as (y & Hy & E). apply bs_eqb_eq in E. subst y. exact Hy.
+Qed.
+Print Assumptions only_http_message_names_are_left_out.
+
+(* so every other key arrives, on the three protocols (the corollary the property asks for) *)
+Theorem application_metadata_arrives : forall (D : Type) sm su
+  (R : forall c m ds, su (sm c m ds) = Some (c, m, ds))
+  (headers trailer : hmap) (e : err D) k,
+  e_code e <> 0 -> e_code e < two31 -> sm (e_code e) (e_msg e) (e_details e) <> [] ->
+  ~ reserved_grpc k -> ~ In k http_message_vocabulary ->
+  exists e',
+    grpc_error_from_trailer_full D su headers (grpc_error_to_trailer D sm trailer (Some e)) = inl (Some e') /\
+    values k (e_meta e') = values k headers ++ values k trailer ++ values k (e_meta e).
+Proof.
+  intros D sm su R headers trailer e k Hnz Hlt Hne Hres Hvoc.
+  destruct (grpc_error_roundtrip D sm su R headers trailer e Hnz Hlt Hne) as (e' & Hd & _ & _ & _ & Hm).
+  exists e'. split; [exact Hd|]. rewrite (Hm k Hres).
+  destruct (message_header k) eqn:M; [|reflexivity].
+  exfalso. apply Hvoc. apply only_http_message_names_are_left_out. exact M.
+Qed.
+Print Assumptions application_metadata_arrives.
 
 (* a plain Go error travels as code unknown with its text (then the theorems above apply) *)
 Theorem plain_error_is_unknown : forall (D : Type) (text : bytes),
